@@ -8,9 +8,10 @@ import importlib.util
 import os
 
 import verif as V
+import locks
 
 PROP = "C16"
-SPEC = ["Bng.Spec.C16Teardown", "Bng.Spec.C16TeardownMon", "Bng.Spec.C16Pppoe", "Bng.Spec.C16PppoeWhole", "Bng.Spec.C16SubMgr", "Bng.Spec.C16Paths"]
+SPEC = ["Bng.Spec.C16Teardown", "Bng.Spec.C16TeardownMon", "Bng.Spec.C16Pppoe", "Bng.Spec.C16PppoeWhole", "Bng.Spec.C16SubMgr", "Bng.Spec.C16Paths"] + ["Bng.Spec.C02Locks", "Bng.Spec.C16Locks", "Bng.Spec.C10Locks"]
 COMPS = [
     V.Component("pppoesrv", monitors=["residue", "conservation", "obs-roundtrip", "held-free", "pool-entry", "swept-active", "kept-idle"]),
     V.Component("teardown", monitors=["double-stop", "double-cleanup", "residue", "missing-stop", "stop-unstarted", "stop-before-end", "not-terminated", "double-padt", "stop-without-start", "obs-roundtrip"]),
@@ -38,6 +39,7 @@ ASSUME = [
     "subscriber.Manager: TerminateSession calls are interleaved at the manager's unlock points (tbegin/tresume), and AssignAddress calls are held inside the allocator call between their two critical sections (abegin/aresume) with terminations, creates and other assignments in the window; the allocator stub parks the call BEFORE it picks the address (the manager cannot tell where inside the allocator call time passes). An AssignAddress that hands a LIVE session a second address lies outside Bng.SubMgr.Valid: the recorded finding KF-submgr-reassign-leak",
     "concurrent terminations of pppoe.SessionTeardown: one call can be held after it claimed the session (tpark/tresume), other calls run in the window",
 ]
+ASSUME = ASSUME + [locks.ASSUME]
 
 
 PATHS = os.path.join(V.LEAN, "Bng", "Gen", "Paths.lean")
@@ -65,8 +67,8 @@ if _m is not None:
 
 
 def run(tier, seed):
-    return V.standard_check(PROP, SPEC, COMPS, LEVEL, ASSUME, tier, seed, pre=regenerate)
+    return V.standard_check(PROP, SPEC, COMPS, LEVEL, ASSUME, tier, seed, pre=locks.with_locks(regenerate))
 
 
 def replay(path):
-    return V.replay(PROP, COMPS, path, SPEC)
+    return V.replay(PROP, COMPS, path, SPEC, pre=locks.with_locks())
